@@ -8,9 +8,10 @@ import (
 	"bytes"
 	"crypto"
 	"crypto/sha256"
-	"io"
 	"fmt"
+	"io"
 	"strings"
+	"syscall"
 	"time"
 
 	"github.com/foxboron/go-uefi/efi/attributes"
@@ -31,6 +32,20 @@ func (s slowSigner) Public() crypto.PublicKey { return s.inner.Public() }
 func (s slowSigner) Sign(r io.Reader, d []byte, o crypto.SignerOpts) ([]byte, error) {
 	time.Sleep(1100 * time.Millisecond)
 	return s.inner.Sign(r, d, o)
+}
+
+// flakySigner fails every other request (the first, the third ...): busy, then available
+type flakySigner struct {
+	crypto.Signer
+	n int
+}
+
+func (f *flakySigner) Sign(r io.Reader, digest []byte, opts crypto.SignerOpts) ([]byte, error) {
+	f.n++
+	if f.n%2 == 1 {
+		return nil, syscall.EAGAIN
+	}
+	return f.Signer.Sign(r, digest, opts)
 }
 
 func zoneOf(z string) *time.Location {
@@ -95,6 +110,10 @@ func runSignVar(sc M) {
 			}
 		}}
 	}
+	if sc["flaky"] == true {
+		// a token that is busy for the first request of every call and then works
+		signer = &flakySigner{Signer: testKey(key)}
+	}
 	burst := num(sc, "burst")
 	if burst < 1 {
 		burst = 1
@@ -137,6 +156,10 @@ func runSignVar(sc M) {
 				}
 			}
 			a, m, err := signature.SignEFIVariable(v, pl, signer, cert)
+			for try := 0; err != nil && sc["flaky"] == true && try < 3; try++ {
+				// the token was busy: the caller asks again; whatever comes back as a success must be a valid update
+				a, m, err = signature.SignEFIVariable(v, pl, signer, cert)
+			}
 			if err != nil {
 				return err
 			}
